@@ -283,6 +283,8 @@ func (w *worker) evalTree(idx int64, t *tree) {
 			}
 			ar := append([]int(nil), w.e.arities...)
 			w.compare(clMount, ci, &w.oP, &w.oG)
+			w.e.runAll(t, ti, c, progMountCfg, nil, &w.oD)
+			w.compare(clMountCfg, ci, &w.oD, &w.oG)
 			w.e.runAll(t, ti, c, progMountLate, nil, &w.oL)
 			w.compareLate(ci)
 			w.l.Add("mount_evaluations", 1)
@@ -425,6 +427,10 @@ func (w *worker) evalClause(t *tree, c rcfg, clause string, fn func(h diffHit, k
 	switch clause {
 	case clMount:
 		w.e.runAll(t, ti, c, progMount, nil, &w.sA)
+		w.e.runAll(t, ti, c, progGroup, nil, &w.sB)
+		run(&w.sA, &w.sB, nil)
+	case clMountCfg:
+		w.e.runAll(t, ti, c, progMountCfg, nil, &w.sA)
 		w.e.runAll(t, ti, c, progGroup, nil, &w.sB)
 		run(&w.sA, &w.sB, nil)
 	case clMountLate:
@@ -580,7 +586,7 @@ func (w *worker) minimise(t *tree, c rcfg, clause, kind string) *sigInfo {
 		return false
 	})
 	parts := []string{clause}
-	if clause == clMount || clause == clMountLate || clause == clMapOrder {
+	if clause == clMount || clause == clMountCfg || clause == clMountLate || clause == clMapOrder {
 		parts = append(parts, mountClass(cur))
 	}
 	parts = append(parts, kind)
@@ -591,6 +597,7 @@ func (w *worker) minimise(t *tree, c rcfg, clause, kind string) *sigInfo {
 	pair := map[string]string{
 		clMount:     progNames[progMount] + " vs " + progNames[progGroup],
 		clMountLate: progNames[progMountLate] + " vs " + progNames[progGroup],
+		clMountCfg:  progNames[progMountCfg] + " vs " + progNames[progGroup],
 		clMapOrder:  progNames[progMount] + " under a deviating appList map order vs the default order",
 		clFlat:      progNames[progGroup] + " vs " + progNames[progFlat],
 		clRoute:     progNames[progRoute] + " vs " + progNames[progFlat],
@@ -649,7 +656,7 @@ func replay(r *core.Run, text string) {
 	fmt.Print(t.goProgram())
 	bad := 0
 	for _, c := range cfgs {
-		for _, clause := range []string{clMount, clMountLate, clMapOrder, clFlat, clRoute} {
+		for _, clause := range []string{clMount, clMountCfg, clMountLate, clMapOrder, clFlat, clRoute} {
 			w.evalClause(t, c, clause, func(h diffHit, kind string) bool {
 				bad++
 				fmt.Printf("%s | %s | %s %s | %s\n    first : %s\n    second: %s\n", c, clause, kind, h.detail, h.req, h.impl, h.ref)
